@@ -137,6 +137,23 @@ def c15(tier, seed):
              "min_tally": [0, 0, 0, 1000], "min_nontrivial": 28}]
 
 
+def c09(tier, seed):
+    return [dict(MC_ALG), CALIB,
+            {"type": "i2s", "name": "drive logint", "spec": "Trace_Log", "cmd": ["drive", "logint", "{seed}", q(tier, 120, 1500), "{trace}"],
+             "min_tally": [500, 300, 0, 0]}] + \
+           ([{"type": "i2s", "name": "drive logint shard %d" % k, "spec": "Trace_Log",
+              "cmd": ["drive", "logint", str(seed * 1000 + k), 1500, "{trace}"], "min_tally": [500, 300, 0, 0]} for k in range(1, 8)] if tier == "thorough" else [])
+
+
+def c10(tier, seed):
+    return [CALIB,
+            {"type": "mc", "module": "MC_RealFns", "constants": {}, "workers": 2},
+            {"type": "i2s", "name": "drive quartic", "spec": "Trace_Log", "cmd": ["drive", "quartic", "{seed}", q(tier, 4000, 20000), "{trace}"],
+             "min_tally": [0, 0, 2000, 500]}] + \
+           ([{"type": "i2s", "name": "drive quartic shard %d" % k, "spec": "Trace_Log",
+              "cmd": ["drive", "quartic", str(seed * 1000 + k), 20000, "{trace}"], "min_tally": [0, 0, 2000, 500]} for k in range(1, 14)] if tier == "thorough" else [])
+
+
 ARITH_ASSUME = [
     "libm ln within 1 ulp (glibc claims < 1 ulp)",
     "inputs whose partial terms or powers of x leave [2^-1000, 2^1000] are out of scope and skipped (counted by the tallies)",
@@ -149,6 +166,10 @@ ORDER_ASSUME = [
 ]
 
 PLANS = {
+    "C09": {"claim": "That the recurrences q_n=p_n, q_i=p_i-(i+1)q_{i+1} solve q+q'=p (so v q(ln v) is an antiderivative of p(ln v)) and that the quartic special form solves G-G'=p(-x) is model-checked on the coefficient grid for every degree 0..8; on real executions TLC evaluates, with 230-bit ln and exponential tail and exact rational arithmetic, (i) every number of the returned form against the exact recurrence, (ii) F(knot.x)=knot.y both through the library's evaluate and through the form's meaning, (iii) F(b)-F(a) and the same for indefinite() against the exact antiderivative (fundamental theorem, no quadrature), at points far from 1 (1e-300 .. 1e18).",
+            "steps": c09, "parallel": 8, "rule": "non-trivial = knot.x, a, b all different from 1 (where ln vanishes and the existing tests live)", "assumptions": ARITH_ASSUME + ["KAPPA = 256: tolerance 256*2^-53 times the construction's own term magnitudes"]},
+    "C10": {"claim": "The quartic form's value k + v sum c_j x^j + u v x^5 R(x) is evaluated by the specification with ln and R to ~230 bits (series for |x|<=8, closed form with exact big rationals beyond; functional identities of both model-checked in MC_RealFns) and the real result must lie within 1e-12 times the sum of term magnitudes: every float within 4096 ulps of 1 and of both implementation switch points (located by bisection on the implementation's own x), x in [-40,40], extreme v; v=1 must return k exactly.",
+            "steps": c10, "parallel": 8, "level": "model_checking", "rule": "non-trivial = v # 1; tally 14 counts |v-1| < 2^-40", "assumptions": ARITH_ASSUME},
     "C07": {"claim": "Deriv(Indef c)=c, i*Indef(c)[i+1]=c[i], the knot condition and F(b)-F(a)=exact integral are model-checked over exact rationals for degrees 0..7; real integral()/indefinite() results (of PolyK and of Segment<PolyK>) on random and engineered inputs incl. knot.x = +-0 are judged by TLC over exact rationals: zero constant term, every coefficient the correctly rounded c_i/(i+1), vertical shift only, value at the knot, definite integrals, and derivative-back within one ulp.",
             "steps": c07, "rule": "one event per (degree, coefficient vector, knot, two evaluation points); all in-scope events count as non-trivial", "assumptions": ARITH_ASSUME},
     "C08": {"claim": "Linearity of Deriv, Deriv(x^k)=k x^(k-1), lengths and the degree-0 case are model-checked; the integer grid is replayed bit-exactly on derivative() of Poly0..8; random float vectors are judged by TLC (1 ulp, exact for factors 1,2,4,8); Segment/Piecewise derivative keeps count, order and breakpoint bits and differentiates every piece (incl. neighbouring pieces with equal derivatives).",
@@ -184,7 +205,27 @@ def known_match(k, v):
     return True
 
 
-PREDICATES = {}
+def _f64(b):
+    import struct
+    return struct.unpack(">d", struct.pack(">II", b[0] & 0xffffffff, b[1] & 0xffffffff))[0]
+
+
+def quartic_overflow(ev, v):
+    """F3: IntOfLogPoly4::evaluate(v) is non-finite because exp(-ln v) overflows (v < e^-709.78, i.e. all
+    subnormals and v < 1.1e-308) or because |u| * exp(-ln v) overflows in `t2 * x^4`, although the true
+    value and the sum of its term magnitudes are finite.  Matches only a non-finite result in that region;
+    a finite wrong value there, or a non-finite one anywhere else, is still a violation."""
+    import math
+    if ev.get("ev") != "quartic":
+        return False
+    y, vv, u = _f64(ev["y"]), _f64(ev["v"]), _f64(ev["u"])
+    if math.isfinite(y) or not (vv > 0):
+        return False
+    x = -math.log(vv)
+    return x > 709.0 or (u != 0 and x + math.log(abs(u)) > 709.0)
+
+
+PREDICATES = {"quartic_overflow": quartic_overflow}
 
 
 def replay_steps(pid, rec, run):
